@@ -7,6 +7,7 @@ import (
 	"sort"
 	"strconv"
 	"strings"
+	"sync"
 	"time"
 
 	"github.com/netsampler/goflow2/v2/decoders/netflow"
@@ -51,6 +52,30 @@ func v9Template(tid uint16) []byte {
 	return append(b, set...)
 }
 
+// a template set followed by a set with a reserved id: the template is announced, then the datagram is refused
+func v9TemplateBad(tid uint16) []byte {
+	b := v9Header(2, 7)
+	set := []byte{0, 0, 0, 12, byte(tid >> 8), byte(tid), 0, 1, 0, 8, 0, 4}
+	bad := []byte{0, 100, 0, 8, 1, 2, 3, 4}
+	return append(append(b, set...), bad...)
+}
+
+// parkTS: a template system whose AddTemplate of template 256 is a schedule point of its own — after the
+// per-exporter system has been published, in the middle of decoding the first datagram
+type parkTS struct {
+	netflow.NetFlowTemplateSystem
+	ctl  *raceCtl
+	once *sync.Once
+}
+
+func (p *parkTS) AddTemplate(version uint16, obsDomainId uint32, templateId uint16, template interface{}) error {
+	err := p.NetFlowTemplateSystem.AddTemplate(version, obsDomainId, templateId, template)
+	if templateId == 256 {
+		p.once.Do(func() { p.ctl.park() })
+	}
+	return err
+}
+
 func v9Data(tid uint16) []byte {
 	b := v9Header(1, 7)
 	set := []byte{byte(tid >> 8), byte(tid), 0, 8, 10, 0, 0, 1}
@@ -91,6 +116,27 @@ func opRace(st *state, args []string) []string {
 		visible = func(i int) bool {
 			return pipe.DecodeFlow(&utils.Message{Src: src, Payload: v9Data(uint16(256 + i)), Received: time.Unix(2, 0)}) == nil
 		}
+	case "tplbad":
+		// worker 0's datagram announces template 256 and is then refused; it is parked a second time inside
+		// AddTemplate, i.e. after the exporter's template system was published. The others announce 256+i.
+		prod, _ := protoproducer.CreateProtoProducer(cfg, protoproducer.CreateSamplingSystem)
+		capf := &captureFormat{}
+		once := &sync.Once{}
+		pipe := utils.NewNetFlowPipe(&utils.PipeConfig{Format: capf, Producer: prod,
+			NetFlowTemplater: func(key string) netflow.NetFlowTemplateSystem {
+				ctl.park()
+				return &parkTS{NetFlowTemplateSystem: netflow.CreateTemplateSystem(), ctl: ctl, once: once}
+			}})
+		work = func(i int) error {
+			if i == 0 {
+				pipe.DecodeFlow(&utils.Message{Src: src, Payload: v9TemplateBad(256), Received: time.Unix(1, 0)})
+				return fmt.Errorf("refused") // its own announcement is C06's subject, not checked here
+			}
+			return pipe.DecodeFlow(&utils.Message{Src: src, Payload: v9Template(uint16(256 + i)), Received: time.Unix(1, 0)})
+		}
+		visible = func(i int) bool {
+			return pipe.DecodeFlow(&utils.Message{Src: src, Payload: v9Data(uint16(256 + i)), Received: time.Unix(2, 0)}) == nil
+		}
 	case "rate":
 		prod, _ := protoproducer.CreateProtoProducer(cfg, func() protoproducer.SamplingRateSystem {
 			ctl.park()
@@ -124,6 +170,7 @@ func opRace(st *state, args []string) []string {
 	done := make([]chan error, n)
 	gates := make([]*gate, n)
 	finished := make([]bool, n)
+	results := make([]error, n)
 	started := make([]bool, n)
 	for _, ev := range strings.Split(args[2], ",") {
 		if len(ev) < 2 {
@@ -144,7 +191,8 @@ func opRace(st *state, args []string) []string {
 			select {
 			case g := <-ctl.parked:
 				gates[i] = g
-			case <-done[i]:
+			case e := <-done[i]:
+				results[i] = e
 				finished[i] = true
 			case <-time.After(3 * time.Second):
 				return []string{"res timeout"}
@@ -158,10 +206,15 @@ func opRace(st *state, args []string) []string {
 			}
 			if gates[i] != nil {
 				close(gates[i].release)
+				gates[i] = nil
 			}
+			// until it returns or reaches its next schedule point (every other worker is parked or done)
 			select {
-			case <-done[i]:
+			case e := <-done[i]:
+				results[i] = e
 				finished[i] = true
+			case g := <-ctl.parked:
+				gates[i] = g
 			case <-time.After(3 * time.Second):
 				return []string{"res timeout"}
 			}
@@ -175,9 +228,21 @@ func opRace(st *state, args []string) []string {
 			close(g.release)
 		}
 	}()
+	// whatever is still parked when the plan ends runs to its end now
+	for i := 0; i < n; i++ {
+		if started[i] && !finished[i] {
+			select {
+			case e := <-done[i]:
+				results[i] = e
+				finished[i] = true
+			case <-time.After(3 * time.Second):
+				return []string{"res timeout"}
+			}
+		}
+	}
 	var lost []int
 	for i := 0; i < n; i++ {
-		if finished[i] && !visible(i) {
+		if finished[i] && (args[0] != "tplbad" || results[i] == nil) && !visible(i) {
 			lost = append(lost, i)
 		}
 	}
